@@ -106,7 +106,7 @@ def run(chk):
                 chk.tie_break("model:skeleton", "model skeletons of corpus pair %s differ" % os.path.basename(f), {"text": variant})
         chk.sample({"kind": "corpus", "file": os.path.basename(f), "text": variant[:160]})
 
-    nprog = 3000 if thorough else 450
+    nprog = 3000 if thorough else 320
     changed = 0
     seen = set()
     for k in range(nprog):
